@@ -635,6 +635,13 @@ class VSocket:
         self.net.on_bytes(self, chunk)
         return k
 
+    def read(self, n):
+        """the TLS socket's read(): same stream semantics (an orderly TLS shutdown reads as an empty result)"""
+        return self.recv(n)
+
+    def unwrap(self):
+        return self
+
     def recv(self, n):
         s = self.sched
         s.yield_('recv')
